@@ -401,6 +401,67 @@ class ChunkParentGuards(Case):
         return dict(off=off, a=a, b=rng.randint(a + 1, off + 10))
 
 
+class ReparentMismatch(Case):
+    """AbstractInterval.liftover_to_parent_or_seq_chunk_parent(new_parent) of an interval that sits on a chromosome WITH
+    sequence: the new parent must be the same chromosome - same id, same type, and, when it carries sequence data, the
+    same text; anything else is the documented MismatchedParentException, never an interval silently re-read from
+    another sequence.  (This is the only place where the old and the new parent can be compared: the interval is then
+    rebuilt from its dictionary, which does not carry the parent.)"""
+    props = ("C19", "C04")
+    name = "liftover_to_parent_or_seq_chunk_parent[new chromosome parent: same / other text, same / other id, with / without sequence]"
+    func = "gene.interval.AbstractInterval.liftover_to_parent_or_seq_chunk_parent"
+    module = "gene.feature"
+    call = ("(lambda g: (g.start, g.end, str(g.get_spliced_sequence()) if g.has_sequence else None))"
+            "(f.liftover_to_parent_or_seq_chunk_parent(new))")
+    raises = {"MismatchedParentException": lambda i: i.new_id != "chr1" or (i.new_text is not None and i.new_text != i.text)}
+    ensures = {"same-interval-on-the-new-parent": lambda i, r: (r[0], r[1]) == (2, 6) and r[2] == (
+        i.text[2:6] if i.new_text is not None else None)}
+
+    def inputs(self, S):
+        text, new_text, new_id = "ACGTACGTAC", S.const("new_text"), S.const("new_id")
+        fn = S.fn("io.parser.seq_to_parent")
+        mk = (lambda t, i_: fn(t, seq_id=i_)) if S.mode == "native" else (lambda t, i_: S.e.call(fn, [t], {"seq_id": i_}))
+        old = mk(text, "chr1")
+        new = mk(new_text, new_id) if new_text is not None else S.new(PARENT, id=new_id, sequence_type="chromosome")
+        f = S.new("gene.feature.FeatureInterval", [2], [6], S.enum_const(STRAND, "PLUS"), parent_or_seq_chunk_parent=old)
+        return NS(f=f, new=new, text=text, new_text=new_text, new_id=new_id)
+
+    def ground(self):
+        for new_text in ("ACGTACGTAC", "ACGTTCGTAC", "ACGTACGTACGG", None):
+            for new_id in ("chr1", "chr2"):
+                yield dict(new_text=new_text, new_id=new_id)
+
+
+class ParentEqualsExceptLocation(Case):
+    """Parent.equals_except_location (under every set operation through has_overlap / require_parents_equal_*): two
+    parents match iff id and sequence type agree, their own parents agree where BOTH have one, and - unless
+    require_same_sequence is switched off - their sequence data agree, where 'no sequence' only matches 'no sequence'."""
+    props = ("C19", "C02", "C04")
+    name = "Parent.equals_except_location[ids x types x sequence present / absent / different x flag]"
+    func = "parent.parent.Parent.equals_except_location"
+    module = "parent.parent"
+    call = "(a.equals_except_location(b, require_same_sequence=flag), b.equals_except_location(a, require_same_sequence=flag))"
+    ensures = {
+        "documented-match": lambda i, r: r[0] == i.expect and r[1] == i.expect,
+    }
+
+    def inputs(self, S):
+        def mk(spec):
+            pid, ptype, text = spec
+            seq = S.new(SEQUENCE, text, S.enum_const(ALPHABET, "NT_STRICT")) if text is not None else None
+            return S.new(PARENT, id=pid, sequence_type=ptype, sequence=seq)
+        sa, sb, flag = S.const("a"), S.const("b"), S.const("flag")
+        expect = sa[0] == sb[0] and sa[1] == sb[1] and (not flag or sa[2] == sb[2])
+        return NS(a=mk(sa), b=mk(sb), flag=flag, expect=expect)
+
+    def ground(self):
+        specs = [(i_, t, x) for i_ in ("chr1", "chr2") for t in (None, "chromosome") for x in (None, "ACGT", "ACGA")]
+        for a in specs:
+            for b in specs:
+                for flag in (True, False):
+                    yield dict(a=list(a), b=list(b), flag=flag)
+
+
 class FromSingleIntervals(Case):
     """CompoundInterval.from_single_intervals: refused iff empty, mixed strands, or parents that are not equal except
     for the location (same id but different type or sequence counts as different)."""
@@ -527,5 +588,5 @@ class OpenEndedSlice(Case):
 CASES = [OpenEndedSlice(), TranscriptCdsBounds(), TranscriptCdsArgs(), CdsInitShape("FF"), CdsInitShape("PP"), CdsInitShape("FP"),
          CdsInitShape("F"), CdsInitShape("FFF"), VariantInit(), EmptyCollections(), AnnotationCollectionBounds(),
          InitializeLocation(), SequenceInit(), ParentConsistency(), FromSingleIntervals(),
-         CompoundOnSequence("shift_position"), CompoundOnSequence("__init__"), ParentExplicitParent(),
+         CompoundOnSequence("shift_position"), CompoundOnSequence("__init__"), ParentExplicitParent(), ReparentMismatch(), ParentEqualsExceptLocation(),
          *[ChunkParentGuards(v, k) for v in ("constructor", "static helper") for k in ChunkParentGuards.KINDS]]
